@@ -19,7 +19,13 @@ fn main() {
     let mut it = std::env::args().skip(1);
     let cmd = it.next().unwrap_or_default();
     let args = util::parse_args(it);
-    std::panic::set_hook(Box::new(|_| {}));
+    // panics of the code under test are expected and caught (util::catch marks them); a panic of the harness itself
+    // must say where it happened
+    std::panic::set_hook(Box::new(|info| {
+        if !util::IN_CATCH.with(|c| c.get()) {
+            eprintln!("harness panic: {}", info);
+        }
+    }));
     let code = match cmd.as_str() {
         "c17" => c17::main(args),
         "c01" => delta::main_pairs(args, "c01"),
